@@ -5,7 +5,9 @@
   FordModel/Generated/C19.lean on every run.
 -/
 import FordModel.Fs
+import FordModel.FsPages
 import FordModel.Lemmas.Fs
+import FordModel.Lemmas.FsPages
 namespace Ford.C19
 open Ford Ford.Fs
 
@@ -205,12 +207,127 @@ theorem confined_partial (c : Cfg) (s : Site) (hl : LinksOk c.links) (hs : SiteO
     outside. -/
 theorem copy_subdir_escape_witness :
     let c : Cfg := { dir := ["p".toList], out := "doc".toList }
-    let s : Site := { pages := [{ loc := ".".toList, stem := "index".toList, files := [],
+    let s : Site := { pages := [{ loc := [], stem := "index".toList, files := [],
                                   copies := [{ item := "../../x".toList, tree := some ⟨[(0, "a".toList)], ["a".toList], []⟩ }] }] }
     noEscape s = false ∧ (∃ p ∈ run c s, ¬ Allowed (outDir c) (graphDir c) p) ∧
     (run { c with repaired := true } s).all (fun p => (outDir c).isPrefixOf p.path) = true := by
   intro c s
   refine ⟨by decide, ⟨⟨.wr, ["p".toList, "x".toList, "a".toList]⟩, by decide, ?_⟩, by decide⟩
+  rintro (h | ⟨gd, hg, _⟩ | ⟨hk, _⟩)
+  · exact absurd h (by decide)
+  · simp [graphDir, c] at hg
+  · cases hk
+
+/-- **A source file is copied under its last path component only.** Wherever a source file lies - below
+    the project, in a directory several levels above the project file, anywhere on disk, whatever `..` its
+    path contains - and however many files share its name, `incl_src` writes it to `src/<last component>`:
+    inside `output_dir/src`. No hypothesis on the path: no part of the file's directory reaches the target
+    (a copy placed under the file's project-relative path would not have this property). -/
+theorem src_copy_confined (o : Path) (ho : Normal o) (path : Str) :
+    ∀ q ∈ copyFile (norm (o ++ ["src".toList] ++ [baseName path])), o <+: q.path := by
+  apply copyFile_under
+  have := under_join o ho _ (safe_two "src".toList (baseName path) ⟨by decide, by decide, by decide⟩)
+  simpa using this
+
+/-- **`os.path.relpath` below its start.** When `start` is, after normalisation, a prefix of `p`, the
+    relative path is what remains of `p` - a path without `.`, `..` or empty components. -/
+theorem relpath_below (p start : List Seg) (h : norm start <+: norm p) :
+    relpath p start = (norm p).drop (norm start).length ∧ Normal (relpath p start) :=
+  ⟨relpath_of_prefix p start h, relpath_normal_of_prefix p start h⟩
+
+/-- **The containment test of `get_page_tree`** (repaired variant: `rel = os.path.relpath(filename, topdir)`
+    must be neither `.` nor start with `..`) accepts an entry `name` of a page in `topdir` exactly when
+    `topdir / name` lies, after lexical normalisation, strictly below `topdir` - whatever the entry is:
+    nested, absolute, with `..` anywhere, with `//` or `.` components. -/
+theorem subpage_guard_iff_strictly_inside (topdir : List Seg) (name : Str) :
+    relOutside (joinLex topdir name) topdir = false ↔
+      norm topdir <+: norm (joinLex topdir name) ∧ norm topdir ≠ norm (joinLex topdir name) :=
+  relOutside_false_iff _ _
+
+/-- **Every static page is placed inside `page/` (repaired variant).** For every page directory - any
+    listings, any symbolic links inside it pointing anywhere (sections shared with other projects, linked
+    page files, dangling links), any `ordered_subpage` entries in any page's metadata (names, nested paths,
+    `..` to any depth, absolute paths, naming directories, page files or plain files inside or outside the
+    page directory) - the `location` of every node of the page tree is a path without `..`: the page is
+    written below `output_dir/page`. The location is computed lexically (`relpath`), never through a link:
+    where a linked section really lies does not enter it. -/
+theorem page_locations_inside (pin : PageIn) :
+    ∀ n ∈ pageTree true pin, Normal n.loc ∧ safe 0 n.loc = true := by
+  intro n hn
+  have h := pageTree_locs true pin (Or.inl rfl) n hn
+  exact ⟨h, safe_of_normal _ h 0⟩
+
+/-- **... code as it is**, under the decidable hypothesis on the *input* that no `ordered_subpage` entry
+    (and no name of a directory listing) is absolute or climbs above the directory of the page that lists
+    it (`noSubpageEscape`). -/
+theorem page_locations_inside_partial (pin : PageIn) (h : noSubpageEscape pin = true) :
+    ∀ n ∈ pageTree false pin, Normal n.loc ∧ safe 0 n.loc = true := by
+  intro n hn
+  have h := pageTree_locs false pin (Or.inr h) n hn
+  exact ⟨h, safe_of_normal _ h 0⟩
+
+/-- **Confinement as a function of the input page tree (both repairs).** The static pages are not given
+    but *computed* from what lies in the page directory and what the metadata says (`pageTree`, the model of
+    `get_page_tree` / `PageNode`): for all placements, options, sites and page directories every attempt of
+    the run targets the output directory or the graph directory. No hypothesis on page locations or on
+    `ordered_subpage` entries is left; the side conditions are those on directory listings (`SiteOk` for the
+    non-page part, `TreesOk` for the directories that `copy_subdir` items name). -/
+theorem confined_from_input (c : Cfg) (s : Site) (pin : Option PageIn) (hl : LinksOk c.links) (hs : SiteOk s)
+    (ht : ∀ p, pin = some p → TreesOk p) (hv : c.repaired = true) (hg : c.subGuard = true) :
+    ∀ p ∈ runIn c s pin, Allowed (outDir c) (graphDir c) p := by
+  intro p hp
+  exact runW_allowed _ c _ hl (siteOk_withPages _ _ s pin hs (fun q hq => ⟨Or.inl hg, ht q hq⟩)) (Or.inl hv) p hp
+
+/-- **... code as it is**: the same under the two decidable hypotheses on the input, `noSubpageEscape` (no
+    `ordered_subpage` entry leaves its directory; not needed once `get_page_tree` tests containment) and
+    `noEscape` (no page-level `copy_subdir` item leaves the output directory; not needed with the guard of
+    `PagetreePage.writeout`). -/
+theorem confined_from_input_partial (c : Cfg) (s : Site) (pin : Option PageIn) (hl : LinksOk c.links) (hs : SiteOk s)
+    (ht : ∀ p, pin = some p → TreesOk p)
+    (hv : c.repaired = true ∨ noEscape (withPages c.subGuard (outDir c) s pin) = true)
+    (hg : c.subGuard = true ∨ ∀ p, pin = some p → noSubpageEscape p = true) :
+    ∀ p ∈ runIn c s pin, Allowed (outDir c) (graphDir c) p := by
+  intro p hp
+  refine runW_allowed _ c _ hl (siteOk_withPages _ _ s pin hs (fun q hq => ⟨?_, ht q hq⟩)) hv p hp
+  rcases hg with h | h
+  · exact Or.inl h
+  · exact Or.inr (h q hq)
+
+/-- ... at every crash point / under every sequence of caught failures, -/
+theorem crash_closed_from_input (c : Cfg) (s : Site) (pin : Option PageIn) (hl : LinksOk c.links) (hs : SiteOk s)
+    (ht : ∀ p, pin = some p → TreesOk p)
+    (hv : c.repaired = true ∨ noEscape (withPages c.subGuard (outDir c) s pin) = true)
+    (hg : c.subGuard = true ∨ ∀ p, pin = some p → noSubpageEscape p = true)
+    (l : List Prim) (h : l.Sublist (runIn c s pin)) : ∀ p ∈ l, Allowed (outDir c) (graphDir c) p :=
+  fun p hp => confined_from_input_partial c s pin hl hs ht hv hg p (h.subset hp)
+
+/-- **Witness of the defect "an `ordered_subpage` entry leaves the page directory".** Project in `/w/p`,
+    `page_dir: pages`, `output_dir: out/doc`; `pages/index.md` lists `sub/../../../elsewhere` and
+    `/w/elsewhere/index.md` exists. The code as it is gives that page the location `../../elsewhere` and
+    writes `/w/p/out/elsewhere/index.html`, outside `/w/p/out/doc`; with the containment test in
+    `get_page_tree` the entry is skipped and every attempt lies below the output directory. -/
+theorem ordered_subpage_escape_witness :
+    let w : Seg := chars! "w"
+    let pp : Seg := chars! "p"
+    let pages : Seg := chars! "pages"
+    let els : Seg := chars! "elsewhere"
+    let pin : PageIn :=
+      { pageDir := [w, pp, pages]
+        nodes := [([w], .dir [chars! "elsewhere", chars! "p"]), ([w, pp], .dir [chars! "pages"]),
+                  ([w, pp, pages], .dir [chars! "index.md", chars! "sub"]),
+                  ([w, pp, pages, chars! "index.md"], .file (some { ordered := [chars! "sub/../../../elsewhere"] })),
+                  ([w, pp, pages, chars! "sub"], .dir []),
+                  ([w, els], .dir [chars! "index.md"]),
+                  ([w, els, chars! "index.md"], .file (some {}))] }
+    let c : Cfg := { dir := [w, pp], out := chars! "out/doc" }
+    noSubpageEscape pin = false ∧
+    (pageTree false pin).map (·.loc) = [[], [dotdot, dotdot, els]] ∧
+    (∃ p ∈ runIn c {} (some pin), p = ⟨.wr, [w, pp, chars! "out", els, chars! "index.html"]⟩ ∧
+        ¬ Allowed (outDir c) (graphDir c) p) ∧
+    (pageTree true pin).map (·.loc) = [[]] ∧
+    (runIn { c with subGuard := true } {} (some pin)).all (fun p => (outDir c).isPrefixOf p.path) = true := by
+  intro w pp pages els pin c
+  refine ⟨by decide, by decide, ⟨_, by decide, rfl, ?_⟩, by decide, by decide⟩
   rintro (h | ⟨gd, hg, _⟩ | ⟨hk, _⟩)
   · exact absurd h (by decide)
   · simp [graphDir, c] at hg
@@ -284,6 +401,19 @@ theorem confined_physical_partial (c : Cfg) (s : Site) (hl : LinksOk c.links) (h
       rw [survivorsW_whole c hin hk', map_physical_nil] at hp
       exact hall p hp
 
+/-- ... and physically, through whatever symbolic links were left in the old output directory. -/
+theorem confined_physical_from_input (c : Cfg) (s : Site) (pin : Option PageIn) (hl : LinksOk c.links) (hs : SiteOk s)
+    (ht : ∀ p, pin = some p → TreesOk p)
+    (hv : c.repaired = true ∨ noEscape (withPages c.subGuard (outDir c) s pin) = true)
+    (hg : c.subGuard = true ∨ ∀ p, pin = some p → noSubpageEscape p = true)
+    (hin : ∀ l ∈ c.old, outDir c <+: l.loc)
+    (hk : Generated.C19.wipeFailureFatal = true ∨ ∀ l ∈ c.old, l.kept = false) :
+    ∀ p ∈ runPhysIn c s pin, Allowed (outDir c) (graphDir c) p := by
+  refine confined_physical_partial c _ hl (siteOk_withPages _ _ s pin hs (fun q hq => ⟨?_, ht q hq⟩)) hv hin hk
+  rcases hg with h | h
+  · exact Or.inl h
+  · exact Or.inr (h q hq)
+
 /-- **Why the old output must be removed as a whole.** Project in `/p`, `output_dir: doc`, one static
     page; the old `doc/` holds `page -> /v` (a directory elsewhere), `index.html -> /v/f` and, inside a
     real sub-directory, `lists/l -> /v`. Emptying `doc/` entry by entry (`is_dir()` follows the link,
@@ -294,7 +424,7 @@ theorem entrywise_wipe_escape_witness :
                      old := [⟨["p".toList, "doc".toList, "page".toList], ["v".toList], true, false⟩,
                              ⟨["p".toList, "doc".toList, "index.html".toList], ["v".toList, "f".toList], false, false⟩,
                              ⟨["p".toList, "doc".toList, "lists".toList, "l".toList], ["v".toList], true, false⟩] }
-    let s : Site := { pages := [{ loc := ".".toList, stem := "index".toList, files := [], copies := [] }] }
+    let s : Site := { pages := [{ loc := [], stem := "index".toList, files := [], copies := [] }] }
     (survivorsW false c).map (·.loc) = [["p".toList, "doc".toList, "page".toList]] ∧
     ⟨.wr, ["v".toList, "index.html".toList]⟩ ∈ runPhysW false false false c s ∧
     survivorsW true c = [] ∧
@@ -308,7 +438,7 @@ theorem entrywise_wipe_escape_witness :
 theorem failed_wipe_escape_witness :
     let c : Cfg := { dir := ["p".toList], out := "doc".toList, outKind := 2,
                      old := [⟨["p".toList, "doc".toList, "page".toList], ["v".toList], true, true⟩] }
-    let s : Site := { pages := [{ loc := ".".toList, stem := "index".toList, files := [], copies := [] }] }
+    let s : Site := { pages := [{ loc := [], stem := "index".toList, files := [], copies := [] }] }
     ⟨.wr, ["v".toList, "index.html".toList]⟩ ∈ runPhysW true false false c s ∧
     (runPhysW true true false c s).all (fun p => (outDir c).isPrefixOf p.path) = true := by
   decide
@@ -385,11 +515,11 @@ example : treeWf ⟨[(0, ['a']), (1, ['d']), (0, ['d', '/', 'x']), (2, ['d']), (
 
 /-- non-vacuity: the shipped example `copy_subdir: ../images` is not in the defect class,
     a deeper climb is -/
-example : copyEscapes { loc := ".".toList, stem := "index".toList, copies := [], files := [] }
+example : copyEscapes { loc := [], stem := "index".toList, copies := [], files := [] }
     { item := "../images".toList, tree := none } = false := by decide
-example : copyEscapes { loc := "sub".toList, stem := "index".toList, copies := [], files := [] }
+example : copyEscapes { loc := ["sub".toList], stem := "index".toList, copies := [], files := [] }
     { item := "../../../victim".toList, tree := none } = true := by decide
-example : copyEscapes { loc := ".".toList, stem := "index".toList, copies := [], files := [] }
+example : copyEscapes { loc := [], stem := "index".toList, copies := [], files := [] }
     { item := "/abs/img".toList, tree := none } = true := by decide
 
 end Ford.C19
